@@ -56,15 +56,39 @@ Theorem xb_roundtrip_two_fonts : forall p s, representable_xb2 p ->
   exists data b, save_xb p = Ok data /\ load_xb data s = Ok b /\ same_picture true [0%N; 1%N] p (pic_of b).
 Proof. exact xb_roundtrip2_proof. Qed.
 
+(* every uncompressed XBin file in 256-character mode the loader accepts (any SAUCE) is saved and loaded again as the same
+   picture; compressed files are C06's, 512-character files may hit known finding 2 *)
+Theorem xb_resave : forall data s b,
+  is_bytes data -> xb_plain_file data -> load_xb data s = Ok b ->
+  forall s', exists data' b', save_xb (pic_of b) = Ok data' /\ load_xb data' s' = Ok b' /\
+                              same_picture true [0%N] (pic_of b) (pic_of b').
+Proof. exact xb_resave_proof. Qed.
+
 (* ------------------------------------------------------------------ IDF, plain and run-length compressed *)
 Theorem idf_roundtrip : forall compress p, representable_idf p ->
   exists data b, save_idf compress p = Ok data /\ load_idf data = Ok b /\ same_picture true [0%N] p (pic_of b).
 Proof. exact idf_roundtrip_proof. Qed.
 
+(* every IDF file the loader accepts whose picture is within the writer's limits (outside them: known finding 1) *)
+Theorem idf_resave : forall data b,
+  is_bytes data -> load_idf data = Ok b -> b_w b <= 80 -> b_h b <= 200 ->
+  forall compress, exists data' b', save_idf compress (pic_of b) = Ok data' /\ load_idf data' = Ok b' /\
+                                    same_picture true [0%N] (pic_of b) (pic_of b').
+Proof. exact idf_resave_proof. Qed.
+
 (* ------------------------------------------------------------------ Tundra: 24-bit colours, compared as displayed *)
 Theorem tnd_roundtrip : forall p, representable_tnd p ->
   exists data b, save_tnd p = Ok data /\ load_tnd data (Some (tnd_sauce p)) = Ok b /\ same_picture_rgb p (pic_of b).
 Proof. exact tnd_roundtrip_proof. Qed.
+
+(* every Tundra file the loader accepts (position jumps included), as long as the picture it gives has a non-negative
+   height and fewer than 2^30 cells and the file is shorter than 2^29 bytes (u32 colour indices, bit 31 is special) *)
+Theorem tnd_resave : forall data s b,
+  is_bytes data -> tnd_sauce_like s -> load_tnd data s = Ok b ->
+  0 <= b_h b -> b_w b * b_h b < 1073741824 -> (N.of_nat (length data) < 536870912)%N ->
+  exists data' b', save_tnd (pic_of b) = Ok data' /\ load_tnd data' (Some (tnd_sauce (pic_of b))) = Ok b' /\
+                   same_picture_rgb (pic_of b) (pic_of b').
+Proof. exact tnd_resave_proof. Qed.
 
 (* ------------------------------------------------------------------ shared blocks *)
 (* six-bit palette block of XBin / IDF *)
